@@ -61,6 +61,9 @@ def setup(ctx, present, tag="", with_foreign=True, extra_present=()):
         w.preset_cache_file(u, sizes[u], times[u][0], times[u][1])
     if with_foreign:
         w.preset_foreign("notes.txt", _sym_int(ctx, "s_foreign", 20, 4000), _sym_int(ctx, "t_foreign", 1, 900))
+        # foreign files whose names share only the prefix or only the postfix of the cache file pattern
+        w.preset_foreign("cachefile_index.txt", _sym_int(ctx, "s_foreign2", 20, 4000), _sym_int(ctx, "t_foreign2", 1, 900))
+        w.preset_foreign("notes_cachefile", _sym_int(ctx, "s_foreign3", 20, 4000), _sym_int(ctx, "t_foreign3", 1, 900))
     for u in ALPHA:
         w.set_remote(u, _sym_int(ctx, f"rs_{u[6:]}", 20, 4000))
     mx = _sym_int(ctx, "max", 20, 20000)
